@@ -186,6 +186,9 @@ class C11(Check):
                         for repeat, cached in (((1, False), (2, True)) if tier == "quick" else ((1, False), (1, True), (2, False), (2, True))):
                             if True:
                                 out.append({"style": style, "source": source, "op": op, "frames": n, "all_modes": tier != "quick", "repeat": repeat, "cached": cached})
+        for style in ("block", "kitty", "iterm2"):
+            # dynamic size setting + an environment change before the second (cached) pass; no fault injection, one mode
+            out.append({"style": style, "source": "file", "op": "iterate", "frames": 2, "all_modes": False, "repeat": 2, "cached": True, "dynamic": True})
         out.append({"style": "block", "source": "url", "op": "url", "frames": 1})
         return out
 
@@ -200,7 +203,7 @@ class C11(Check):
 
     def install(self, eng, world, shape):
         common, block, kitty, iterm2 = (self.mods[k] for k in ("common", "block", "kitty", "iterm2"))
-        modes = MODES if shape.get("all_modes") else ["L", "P", "RGB", "RGBA"]
+        modes = MODES if shape.get("all_modes") else (["RGB"] if shape.get("dynamic") else ["L", "P", "RGB", "RGBA"])
         mode = modes[eng.choice("source_mode", len(modes))]
         same_size = bool(eng.bool("source_size_equals_render_size"))
         n = shape["frames"]
@@ -224,6 +227,8 @@ class C11(Check):
             def new(mode_, size, color=None):
                 return FakeImg(world, mode_, tuple(size), 1, "derived")
 
+        if "_valid_size" in self.cls.__dict__:
+            del self.cls._valid_size  # (a stub of an earlier path)
         common.Image = ImageNS
         common.get_terminal_size = lambda: __import__("os").terminal_size((80, 24))
         common.get_cell_size = lambda: cs
@@ -281,7 +286,7 @@ class C11(Check):
         start = eng.choice("current_frame", n) if op in ("still", "draw_animated") else 0
         if animated and start:
             image.seek(start)
-        world.fault_at = eng.int("fault_at_step", -1)
+        world.fault_at = eng.int("fault_at_step", -1) if not shape.get("dynamic") else None
         world.ops = 0
         old = sys.stdout
         sys.stdout = io.StringIO()
@@ -298,11 +303,20 @@ class C11(Check):
             elif op == "iterate":
                 repeat, cached = shape["repeat"], shape["cached"]
                 it = None
+                # dynamic size setting (the default) + a terminal / cell-ratio change at the start of the second pass
+                env = {"size": (1, 1)}
+                dyn = bool(shape.get("dynamic"))
+                if dyn:
+                    image._size = common.Size.FIT
+                    type(image)._valid_size = lambda self_, *a, **k: env["size"]
+                    size0 = image.size
                 try:
                     it = common.ImageIterator(image, repeat, full_spec, cached)
                     expected_pos = 0
                     steps = eng.choice("steps_before_abandoning", n * repeat + 2)
                     for i in range(steps):
+                        if dyn and i == n:
+                            env["size"] = (1, 2)
                         try:
                             fr = next(it)
                         except StopIteration:
@@ -320,6 +334,9 @@ class C11(Check):
                         finally:
                             world.suspended = False
                         eng.claim("iterate: yielded frame equals formatting that frame directly", fr == direct)
+                        if dyn:
+                            eng.claim("iterate: a yielded frame has exactly rendered_height lines (rendered_height - 1 newlines) of the image as it is now",
+                                      str(fr).count("\n") == env["size"][1] - 1)
                     if bool(eng.bool("close_explicitly")):
                         it.close()
                     else:
@@ -408,8 +425,11 @@ class C11(Check):
         common.os = shim
         world.fault_at = eng.int("fault_at_step", -1)
         image = None
+        # the constructor may reject the request after the image was downloaded and identified
+        bad_kwargs = bool(eng.bool("constructor_arguments_invalid"))
+        kwargs = dict(width=0) if bad_kwargs else dict(width=1, height=1)
         try:
-            image = self.cls.from_url("http://host/pic.gif", width=1, height=1)
+            image = self.cls.from_url("http://host/pic.gif", **kwargs)
             outcome = "ok"
         except common.URLNotFoundError:
             outcome = "URLNotFoundError"
@@ -417,10 +437,12 @@ class C11(Check):
             outcome = "UnidentifiedImageError"
         except Fault:
             outcome = "fault"
+        except ValueError:
+            outcome = "ValueError"
         eng.reachable()
-        exp = "URLNotFoundError" if status == 404 else ("UnidentifiedImageError" if bad_body else None)
+        exp = "URLNotFoundError" if status == 404 else ("UnidentifiedImageError" if bad_body else ("ValueError" if bad_kwargs and outcome != "fault" else None))
         if exp:
-            eng.claim("from_url: 404 / non-image bodies raise the documented error", outcome == exp)
+            eng.claim("from_url: 404 / non-image bodies / invalid constructor arguments raise the documented error", outcome == exp)
         if outcome != "ok":
             eng.claim("from_url: no temporary file is left behind when construction fails", not files)
             return
